@@ -214,9 +214,11 @@ def run(ctx):
                 if why:
                     ctx.mismatch(f'utility {kind}: {why}', c, None, rep[:120])
                     bad.append(c)
-        why = oracle(st.float_case(ctx.rng, c))
+        fc = st.float_case(ctx.rng, c)
+        why = oracle(fc)
         if why:
-            ctx.fail(why, c, {'kinds': sorted(pipes.kinds_in(c['spec']))})
+            small = st.shrink(fc, lambda x: oracle(x))
+            ctx.fail(oracle(small) or why, small, {'kinds': sorted(pipes.kinds_in(c['spec']))})
 
     def search(ctx):
         for c in bad[:40]:
